@@ -18,6 +18,8 @@ from hv import progs as P
 from hv.core import Outcome
 from hv.props.c03 import _gc_fence
 
+P.scope_log_shapes()  # learned once, before any case runs
+
 PID = "C11"
 LEVEL = "exploration"
 TECHNIQUE = "generated generator scripts x creation/consumption placements x termination modes on the virtual loop; reference creation environment and consumer fingerprint invariant"
@@ -29,6 +31,7 @@ RULE = (
     "creation context differs from consumption context, or early termination, or a nested stream; distinct = distinct case"
 )
 RULE += '; items may be None / falsy values; a quarter of the cases run a garbage collection before every pull'
+RULE += '; a second stream of a same-named generator may be created in the same scope and exhausted first'
 LEVEL_TEXT = (
     "Four sub-claims per generated case: (a) the consumer receives exactly the items then the generator's end or its "
     "exception object; (b) probes inside the generator equal the creation environment; (c) the consumer's context "
@@ -116,6 +119,27 @@ def run_case(case) -> Outcome:  # noqa: C901, PLR0912, PLR0915
     async def main(loop):
         def x_completed(metrics):
             obs["events"].append("X_completed")
+            if obs["end"] is None:
+                obs["events"].append("X_completed@before-stream-end")
+
+        async def _twin():
+            # a SECOND stream created in the same scope from a generator function of the same name (two streams of one
+            # helper): each has its own scope, exhausting one says nothing about the other
+            yield ("twin", 0)
+            yield ("twin", 1)
+
+        _twin.__name__ = _twin.__qualname__ = "gen"
+
+        async def drain_twin():
+            if "s2" in holder and "twin" not in obs:
+                obs["twin"] = []
+                try:
+                    async for x in holder["s2"]:
+                        obs["twin"].append(x)
+                except BaseException as exc:  # noqa: BLE001 - the observation
+                    if isinstance(exc, asyncio.CancelledError):
+                        raise
+                    obs["twin"].append(("raised", repr(exc)))
 
         async def inner_gen():
             yield "n0"
@@ -203,6 +227,7 @@ def run_case(case) -> Outcome:  # noqa: C901, PLR0912, PLR0915
             obs["cons_fps"].append(("after", K.fp(), obs.get("base")))
 
         async def run_consumer(stream):
+            await drain_twin()  # the stream created LATER is exhausted first
             if consume in ("same", "other_scope", "outside"):
                 await consumer(stream)
             elif consume == "other_task":
@@ -252,6 +277,8 @@ def run_case(case) -> Outcome:  # noqa: C901, PLR0912, PLR0915
                 async with ctx.scope("X", K.state("A", 1), completion=x_completed):
                     holder["creation_fp"] = K.fp()["state"]
                     holder["s"] = ctx.stream(gen, "s")
+                    if case.get("twin"):
+                        holder["s2"] = ctx.stream(_twin)
                     if consume == "same":
                         await run_consumer(holder["s"])
                     elif consume != "outside":
@@ -263,6 +290,8 @@ def run_case(case) -> Outcome:  # noqa: C901, PLR0912, PLR0915
             async with ctx.scope("X", K.state("A", 1), completion=x_completed):
                 holder["creation_fp"] = K.fp()["state"]
                 holder["s"] = ctx.stream(gen, "s")
+                if case.get("twin"):
+                    holder["s2"] = ctx.stream(_twin)
                 if consume == "same":
                     await run_consumer(holder["s"])
                 elif consume == "other_scope":
@@ -362,12 +391,19 @@ def run_case(case) -> Outcome:  # noqa: C901, PLR0912, PLR0915
         if obs["second_after"]["state"] != obs["fp0_last_consumer"]["state"]:
             out.violate("c", f"C11.c/consumer-state-changed/after/finishing-task/{tag}", f"{obs['fp0_last_consumer']['state']} -> {obs['second_after']['state']}")
     # ---- (d) stream scope completed; nothing reported
-    finished = [r for r in captured if "[gen]" in str(r.msg) and "finished" in str(r.msg)]
-    started = [r for r in captured if "[gen]" in str(r.msg) and "Started" in str(r.msg)]
+    # the stream's own scope is observed through the log lines the library writes when a scope is entered / left (their
+    # wording is learned from a calibration scope, see progs.scope_log_shapes; None = not observable on this library)
+    finished = P.scope_log_lines(captured, "gen", "exit")
+    started = P.scope_log_lines(captured, "gen", "enter") or []
     terminal = obs["end"] in ("stop", "closed", "timed_out") or isinstance(obs["end"], tuple) or obs["end"] == "abandoned"
     unstarted = "unstarted" if (not obs["gen_probes"] and mode not in ("full", "timeout")) else "started"
     if terminal and obs["err"] is None:
-        if len(finished) != 1:
+        twin = 1 if obs.get("twin") is not None else 0
+        if twin and obs["twin"] != [("twin", 0), ("twin", 1)]:
+            out.violate("a", f"C11.a/second-stream-of-the-scope-disturbed/{tag}", f"{obs['twin']!r}")
+        if twin and mode in ("full", "break") and "X_completed@before-stream-end" in obs["events"]:
+            out.violate("d", f"C11.d/creating-scope-completed-before-its-streams-ended/{mode}/{consume}", f"{obs['events']}")
+        if finished is not None and len(finished) != 1 + twin:
             out.violate("d", f"C11.d/stream-scope-not-completed/{unstarted}/{mode}/{consume}", f"started={len(started)} finished={len(finished)} end={obs['end']!r}")
         if create_in == "XX" and any(e == "root_completed@before-stream-end" for e in obs["events"] if isinstance(e, str)):
             out.violate("d", f"C11.d/outer-scope-completed-before-stream-scope/{unstarted}/{mode}/{consume}", f"{obs['events']}")
@@ -394,6 +430,8 @@ def run_case(case) -> Outcome:  # noqa: C901, PLR0912, PLR0915
         classes.append("generator-raises")
     if case.get("gc_mid"):
         classes.append("gc-between-items")
+    if obs.get("twin") is not None:
+        classes.append("two-streams-created-in-one-scope")
     if consume in ("other_task", "split_tasks"):
         classes.append("other-task")
     out.classes = classes
@@ -409,6 +447,7 @@ def strategy(tier):
             "falsy_items": n >= 2 and (n + ba) % 3 == 0,
             # a garbage collection before every pull: a scope that was left and waits for the stream is held by the stream alone
             "gc_mid": (n + ba) % 4 == 1,
+            "twin": ci in ("X", "XX") and (n + 2 * ba) % 3 == 1,
         },  # fmt: skip
         st.one_of(st.integers(0, 4), st.integers(0, 4), st.integers(5, 14)),  # also long streams (many nested scopes / records)
         st.sampled_from(["stop", "stop", "raise"]),
